@@ -101,8 +101,9 @@ def render(mlr, sc, fmt, crash):
     return case, plan
 
 
-def render_rerun(mlr, sc, fmt, crash):
-    """the first command (killed at the crash point, if any), then the second command on the same files"""
+def render_rerun(mlr, sc, fmt, crash, crash2=None):
+    """the first command (killed at the crash point, if any), then the second command on the same files (killed at its own
+    crash point, if any)"""
     import shlex
     case, plan = render(mlr, sc, fmt, crash)
     argv1 = case["argv"]
@@ -110,8 +111,9 @@ def render_rerun(mlr, sc, fmt, crash):
     env1 = "MLR_VERIF_TRACE=trace.ndjson" + (" MLR_VERIF_CRASH='%s#%d'" % (SITE[crash[0]], crash[1]) if crash else "")
     case = dict(case)
     case["env"] = {}
-    case["shell"] = "%s %s 2>err1.txt; echo $? > rc1.txt; MLR_VERIF_TRACE=trace2.ndjson exec %s" % (
-        env1, " ".join(shlex.quote(a) for a in argv1), " ".join(shlex.quote(a) for a in argv2))
+    env2 = "MLR_VERIF_TRACE=trace2.ndjson" + (" MLR_VERIF_CRASH='%s#%d'" % (SITE[crash2[0]], crash2[1]) if crash2 else "")
+    case["shell"] = "%s %s 2>err1.txt; echo $? > rc1.txt; %s exec %s" % (
+        env1, " ".join(shlex.quote(a) for a in argv1), env2, " ".join(shlex.quote(a) for a in argv2))
     case["argv2"] = argv2
     return case, plan
 
@@ -256,16 +258,36 @@ def run(tier, seed):
         crash = (gcase["site"], gcase["n"]) if gcase["crash"] else None
         case, plan = render(mlr, sc, fmt, crash)
         cases.append(case)
-        meta.append((sc, fmt, crash, plan, False))
-        # the retry: a second, different command on the same files after the first has ended (killed or not)
-        if not any(fd["kind"] in ("writefail", "tempfail") for fd in sc["files"]) and (thorough or crash or k % 4 == 0):
-            case2, plan2 = render_rerun(mlr, sc, fmt, crash)
-            cases.append(case2)
-            meta.append((sc, fmt, crash, plan2, True))
+        meta.append((sc, fmt, crash, plan, False, None))
+    # the retry: a second, different command on the same files after the first has ended in any way, itself killed at every
+    # one of ITS crash points or run to its end - every pair of runs the specification has (MaxRuns = 2)
+    g2cfg = gcfg.replace("MaxRuns = 1", "MaxRuns = 2").replace("MaxFiles = 3", "MaxFiles = 2")
+    g2 = vlib.tlc("InPlaceGen", cfg="gen.cfg", extra_files={"gen.cfg": g2cfg}, workers=1, timeout=3000)
+    if not g2.ok:
+        raise vlib.Inconclusive("InPlaceGen (two runs) failed: %s" % (g2.error or g2.violated))
+    pairs = [x for x in g2.printed if not any(fd["kind"] in ("writefail", "tempfail") for fd in x["sc"]["files"])]
+    if thorough:
+        g3cfg = g2cfg.replace("MaxFiles = 2", "MaxFiles = 3")
+        g23 = vlib.tlc("InPlaceGen", cfg="gen.cfg", extra_files={"gen.cfg": g3cfg}, workers=1, timeout=6000)
+        if not g23.ok:
+            raise vlib.Inconclusive("InPlaceGen (two runs, three files) failed: %s" % (g23.error or g23.violated))
+        three = [x for x in g23.printed if len(x["sc"]["files"]) == 3 and
+                 not any(fd["kind"] in ("writefail", "tempfail") for fd in x["sc"]["files"])]
+        pairs += rnd.sample(three, min(len(three), 20000))
+    elif len(pairs) > 5000:
+        pairs = rnd.sample(pairs, 5000)
+    for k, x in enumerate(pairs):
+        sc = x["sc"]
+        fmt = "dkvp" if not thorough and k % 3 else fmts_cycle[k % 4]
+        crash1 = (x["prev"]["site"], x["prev"]["n"]) if x["prev"]["how"] == "killed" else None
+        crash2 = (x["site"], x["n"]) if x["crash"] else None
+        case2, plan2 = render_rerun(mlr, sc, fmt, crash1, crash2)
+        cases.append(case2)
+        meta.append((sc, fmt, crash1, plan2, True, crash2))
     # reference transformed contents (one run per distinct file)
     ref_cache = {}
     ref_cases = []
-    for sc, fmt, crash, plan, rerun in meta:
+    for sc, fmt, crash, plan, rerun, crash2 in meta:
         for p, rc in zip(plan, reference_cases(mlr, sc, fmt)):
             key = (fmt, p["name"], p["bytes"])
             if rc is not None and key not in ref_cache:
@@ -277,7 +299,7 @@ def run(tier, seed):
             raise vlib.Inconclusive("reference run without -I failed: %s" % rr["stderr"][:500])
     # what the second command prints for each distinct file: T2(original) must equal T2(T1(original))
     ref2_cache, ref2_cases = {}, []
-    for sc, fmt, crash, plan, rerun in meta:
+    for sc, fmt, crash, plan, rerun, crash2 in meta:
         if not rerun:
             continue
         for p in plan:
@@ -294,7 +316,7 @@ def run(tier, seed):
     res = vlib.run_cases(cases)
     vlib.confirm_timeouts(cases, res)
     runs = []
-    for (sc, fmt, crash, plan, rerun), case, rr in zip(meta, cases, res):
+    for (sc, fmt, crash, plan, rerun, crash2), case, rr in zip(meta, cases, res):
         refs, refs2 = [], []
         for p in plan:
             key = (fmt, p["name"], p["bytes"])
@@ -308,7 +330,7 @@ def run(tier, seed):
                 raise vlib.Inconclusive("retry case: the first command's exit status was not recorded: %r" % rr["stderr"][:300])
             how = "killed" if rc1 == "137" else "ok" if rc1 == "0" else "err"
             ev = ev + [{"s": "exit", "a": [how]}, {"s": "restart", "a": []}] + events(rr, "trace2.ndjson")
-        runs.append({"sc": sc, "ev": ev, "obs": o, "_crash": crash, "_fmt": fmt, "_argv": case["argv"][1:],
+        runs.append({"sc": sc, "ev": ev, "obs": o, "_crash": crash, "_crash2": crash2, "_fmt": fmt, "_argv": case["argv"][1:],
                      "_argv2": case.get("argv2", [None])[1:] if rerun else None, "_rerun": rerun,
                      "_stderr": rr["stderr"][:500], "_timedout": rr["timed_out"]})
 
@@ -319,6 +341,7 @@ def run(tier, seed):
         key_base = {"fmt": rn["_fmt"], "crash": list(rn["_crash"]) if rn["_crash"] else None}
         if rn["_rerun"]:
             key_base["retry"] = True
+            key_base["crash2"] = list(rn["_crash2"]) if rn["_crash2"] else None
         if rn["_timedout"]:
             V.violation(dict(key_base, why="hang"), rn)
             continue
@@ -383,12 +406,13 @@ def run(tier, seed):
                            "events": [e["s"] for e in runs[len(runs) // 2]["ev"]], "observed": runs[len(runs) // 2]["obs"]})
     cov["samples"].append({"kind": "crash replay", "argv": runs[-1]["_argv"], "crash": runs[-1]["_crash"],
                            "events": [e["s"] for e in runs[-1]["ev"]], "observed": runs[-1]["obs"]})
-    distinct = {json.dumps([rn["sc"], rn["_crash"], rn["_fmt"], rn["_rerun"]], sort_keys=True) for rn in runs}
+    distinct = {json.dumps([rn["sc"], rn["_crash"], rn["_crash2"], rn["_fmt"], rn["_rerun"]], sort_keys=True) for rn in runs}
     cov.update({
         "states": states, "transitions": transitions,
         "traces_validated_against_impl": len(runs),
         "evaluations": len(runs) + len(ref_cases),
-        "distinct_nontrivial": len({json.dumps([rn["sc"], rn["_crash"], rn["_fmt"], rn["_rerun"]], sort_keys=True) for rn in runs if rn["_crash"]}),
+        "distinct_nontrivial": len({json.dumps([rn["sc"], rn["_crash"], rn["_crash2"], rn["_fmt"], rn["_rerun"]], sort_keys=True) for rn in runs if rn["_crash"] or rn["_crash2"]}),
+        "retry_runs_killed_twice": sum(1 for rn in runs if rn["_rerun"] and rn["_crash"] and rn["_crash2"] and rn["obs"]["exit"] == "killed"),
         "retry_runs": sum(1 for rn in runs if rn["_rerun"]),
         "retry_runs_after_a_kill": sum(1 for rn in runs if rn["_rerun"] and any(e["s"] == "exit" and e["a"] == ["killed"] for e in rn["ev"])),
         "rule": "scenarios (file lists x failure kinds x compression) and crash points (hook site, n-th passage) enumerated by TLC "
@@ -402,7 +426,7 @@ def run(tier, seed):
     assumptions = [
         "SIGKILL at a hook site stands for a crash; loss of un-synced data at power failure is outside the model (Miller does not fsync)",
         "crash points are the hook sites of processFileInPlace, every written record and the stream's final flush",
-        "the retry after a crash is one fixed second command (put -q with the same failure triggers, one short record per file at end of stream)",
+        "the retry after a crash is one fixed second command (put -q with the same failure triggers, one short record per file at end of stream), itself killed at each of its crash points or run to its end",
         "the transformed contents of a file are what the same command without -I prints for that file alone (run on the same binary)",
         "directories made immutable (chattr +i) stand for an unwritable directory, since the checks run as root",
     ]
